@@ -35,13 +35,13 @@ PROPS = {
     "C05": dict(extra=["enum"], profiles=["core", "alloc"], level="proof"),
     "C06": dict(profiles=["alloc", "core"], level="proof", extra=["stamps", "genwrap"]),
     "C07": dict(extra=["enum", "genwrap"], profiles=["alloc", "core"], level="proof"),
-    "C08": dict(extra=["enum"], profiles=["alloc", "core", "value"], level="proof"),
+    "C08": dict(extra=["enum", "genwrap"], profiles=["alloc", "core", "value"], level="proof"),
     "C09": dict(profiles=["iters"], level="proof", props=["C09", "C09src"]),
-    "C10": dict(profiles=["iters"], level="proof", props=["C10", "C09src"]),
+    "C10": dict(profiles=["iters", "core"], level="proof", props=["C10", "C09src"]),
     "C11": dict(profiles=["core", "alloc"], level="proof", extra=["selfcheck", "genwrap"]),
     "C12": dict(extra=["enum", "genwrap"], profiles=["core", "alloc"], level="proof"),
     "C13": dict(profiles=["value", "core"], level="proof", extra=["selfcheck", "determinism"]),
-    "C14": dict(profiles=["print"], level="proof"),
+    "C14": dict(profiles=["print"], level="proof", extra=["printdeep"]),
     "C15": dict(profiles=[], level="proof", extra=["macro"]),
     "C16": dict(profiles=["serde"], level="proof"),
     "C17": dict(profiles=[], level="translation_validation", extra=["features"]),
@@ -222,15 +222,15 @@ def view(pid, cmd, line):
     """canonical projection of one observation line for property pid, or None if irrelevant"""
     k = line[:1]
     if pid == "C01": return a_links(line) if k == "a" else None
-    if pid == "C02": return a_links(line) if k == "a" else (line if k in "ri" else None)
+    if pid == "C02": return a_links(line) if k == "a" else (line if k in "rid" else None)
     if pid == "C03": return a_links(line) if k == "a" else (line if k == "e" else None)
     if pid == "C04": return a_links(line) if k == "a" else None
     if pid == "C05": return line if k in "ra" else None
     if pid == "C06": return line if (k == "m" or line.startswith("r id")) else None
     if pid == "C07": return a_alloc(line) if k == "a" else (line if (k == "f" or line.startswith("r id")) else None)
     if pid == "C08": return a_pay(line) if k == "a" else (line if k == "x" else None)
-    if pid == "C09": return line if k in "id" else None
-    if pid == "C10": return line if k == "d" else None
+    if pid == "C09": return a_links(line) if k == "a" else (line if k in "id" else None)     # iterators read the links
+    if pid == "C10": return a_links(line) if k == "a" else (line if k == "d" else None)
     if pid == "C11": return line if k == "l" else None
     if pid == "C12": return a_dead(line) if k == "a" else (line if k == "r" else None)
     if pid == "C13": return line
@@ -529,11 +529,11 @@ def check(pid, tier, seed):
                 pre = [c for c in hops[:cut] if not c.startswith("end")] if cut else hops[:-1]
                 pf = os.path.join(wd, "prefix.%s.%d.ops" % (r["build"], d["hist"]))
                 open(pf, "w").write("\n".join(pre) + "\n")
-                for prof in ("core", "alloc"):
+                for prof in list(dict.fromkeys((PROPS[pid]["profiles"] or []) + ["core", "alloc"])):
                     tag = "cont.%s.%s.%d" % (prof, r["build"], d["hist"])
                     ops2, obs2, st2 = [os.path.join(wd, tag + e) for e in (".ops", ".obs", ".json")]
                     rc, out = sh([bins[r["build"]], "gen", "--seed", str(seed * 31 + d["hist"]), "--hists", "400", "--len", "30", "--profile", prof,
-                                  "--prefix", pf, "--ops", ops2, "--obs", obs2, "--stats", st2], timeout=300)
+                                  "--prefix", pf, "--ops", ops2, "--obs", obs2, "--stats", st2], timeout=90)
                     r2 = dict(tag=tag, profile=prof + "+prefix", build=r["build"], seed=seed, hists=400, ops=ops2, obs=obs2, diffs=[], mon=[], hang=None, stats={}, stat={}, lines=0)
                     if rc == 124: r2["hang"] = "a continuation did not return"
                     if not os.path.exists(obs2): continue
